@@ -189,6 +189,9 @@ func (g *Gen) addObl(kind, label string, reach Term, goal Term, src string, cove
 			o.PkgPath = g.fn.Package().Pkg.Path()
 		}
 		o.Props = g.con.Props
+		if cl := g.findClause(kind, label); cl != nil && len(cl.Props) > 0 {
+			o.Props = cl.Props
+		}
 		base := label
 		if i := strings.Index(base, "."); kind == "pre" && i >= 0 {
 			base = label
@@ -233,6 +236,30 @@ func (g *Gen) addObl(kind, label string, reach Term, goal Term, src string, cove
 }
 
 // GenFunction generates all obligations of fn against its contract.
+// findClause: the contract clause an obligation kind/label stems from.
+func (g *Gen) findClause(kind, label string) *spec.Clause {
+	var list []*spec.Clause
+	switch kind {
+	case "post":
+		list = g.con.Ensures
+	case "gpost":
+		list = g.con.Guarantees
+	case "inv.entry", "inv.step", "ginv.entry", "ginv.step":
+		list = g.con.Invs
+		if i := strings.Index(label, "."); i >= 0 && strings.HasPrefix(label, "L") {
+			label = label[i+1:]
+		}
+	default:
+		return nil
+	}
+	for _, cl := range list {
+		if cl.Label == label {
+			return cl
+		}
+	}
+	return nil
+}
+
 // GenFunction generates the obligations of fn: the conditional pass (under the
 // contract's preconditions) and, when the contract has `guarantees` clauses or
 // U-invariants, the unconditional pass over the same body.
